@@ -367,6 +367,25 @@ theorem src_tie_append_utf8_encoded_string (s t : List UInt8) (hs : ∀ c ∈ s,
   | ok r => rw [hm] at h1; exact h1
   | error e => rw [hm] at h1; cases e <;> exact h1
 
+/-- Round trip with BOTH sides translated from the source: for every string of scalar values U+0001..U+10FFFF (as a C
+    string in memory: its UTF-8 bytes, a NUL, then anything — including the table literal), in front of every delimiter,
+    the translated writer `append_utf8_encoded_string` appends some `e` and the translated parser `opl_parse_string`, run
+    on `e` followed by the delimiter, appends exactly the original bytes and stops exactly at the delimiter. -/
+theorem src_tie_opl_roundtrip_translated (cs : List Nat) (hs : ScalarStr cs) (d : List UInt8) (hd : Opl.AtStop d)
+    (t1 t2 out result : List UInt8) (h : Int) (fuel1 fuel2 : Nat)
+    (hl : Src.StringUtil.append_utf8_encoded_string_lits (encodeStr cs ++ 0 :: t1) out 0 h = true)
+    (hf1 : (encodeStr cs).length + 6 ≤ fuel1) :
+    ∃ e, Src.StringUtil.append_utf8_encoded_string fuel1 (encodeStr cs ++ 0 :: t1) out 0 h = .normal (out ++ e) () ∧
+      (e.length + d.length + 10 ≤ fuel2 →
+        Src.OplParserFunctions.opl_parse_string fuel2 ((e ++ d) ++ 0 :: t2) 0 result =
+          .normal (((e.length : Nat) : Int), result ++ encodeStr cs) ()) := by
+  obtain ⟨e, he, hp⟩ := src_tie_opl_roundtrip cs hs d hd t2 result fuel2
+  refine ⟨e, ?_, hp⟩
+  have hw := (src_tie_append_utf8_encoded_string (encodeStr cs) t1
+    (SrcTie.Enc.encodeStr_ne_zero cs (fun c hc => (hs c hc).1)) 0 (Nat.zero_le _) h out hl fuel1 (by omega)).1
+  rw [List.drop_zero, he] at hw
+  exact hw
+
 -- non-vacuity: "a €" followed by its NUL and the table; the escaped form is "a%20%€"
 example : Src.StringUtil.append_utf8_encoded_string_lits ([0x61, 0x20, 0xe2, 0x82, 0xac] ++ 0 :: "0123456789abcdef\x00".toUTF8.toList) [] 0 6 = true := by
   decide +kernel
